@@ -164,4 +164,113 @@ Section Concrete.
       pose proof (decode_request_np t) as Hd. destruct (decode_request t) as [rq|e|]; try discriminate; [|congruence].
       destruct (processRPC_ok (Some rq)) as [[[resp err] fr] Eo]. rewrite Eo. discriminate.
   Qed.
+
+  (* ---- never null, concretely: "malformed from" etc. have their real meaning here ---- *)
+  (* requests that cannot be processed: a null member; no (or null) id; eth_sendTransaction without a first
+     parameter, with one that does not decode into a transaction, without `from`, or -- when the nonce has
+     to be looked up -- with a `from` that is not 20 hex-encoded bytes *)
+  Definition must_fail_c (m : option rpc_request) : bool :=
+    match m with
+    | None => true
+    | Some rq =>
+        match rq_id rq with
+        | None => true
+        | Some _ =>
+            if bytes_eqb (rq_method rq) (bs "eth_sendTransaction") then
+              match rq_params rq with
+              | [] => true
+              | p0 :: _ =>
+                  match decode_transaction parse_int p0 with
+                  | Ok tx =>
+                      match tx_from tx with
+                      | None => true
+                      | Some f => match tx_nonce tx with
+                                  | Some _ => false
+                                  | None => negb (is_ok (dec_address f))
+                                  end
+                      end
+                  | _ => true
+                  end
+              end
+            else false
+        end
+    end.
+
+  (* the reply (or the slot of a batch reply) is the serialisation of an error response built by the proxy:
+     {"jsonrpc":"2.0","id":..,"error":{"code":..,"message":..}} -- an object, never null *)
+  Definition error_reply_tree (t : json) : Prop :=
+    exists id code, t = response_tree (RPCErrorResponse id code).
+
+  Lemma processRPC_must_fail_c m o :
+    processRPC m = Ok o -> must_fail_c m = true -> exists id code, o_resp o = Some (RPCErrorResponse id code).
+  Proof.
+    unfold Model.processRPC, must_fail_c. destruct m as [rq|].
+    2:{ intros H _. injection H as <-. unfold o_resp; simpl; eauto. }
+    destruct (rq_id rq) as [id|].
+    2:{ intros H _. injection H as <-. unfold o_resp; simpl; eauto. }
+    destruct (bytes_eqb (rq_method rq) (bs "eth_accounts") || bytes_eqb (rq_method rq) (bs "personal_accounts")) eqn:EA.
+    { intros _ Hm. exfalso.
+      destruct (bytes_eqb (rq_method rq) (bs "eth_sendTransaction")) eqn:ES; [|discriminate].
+      destruct (bytes_eqb_spec (rq_method rq) (bs "eth_sendTransaction")) as [Em|]; [|discriminate].
+      rewrite Em in EA. vm_compute in EA. discriminate. }
+    destruct (bytes_eqb (rq_method rq) (bs "eth_sendTransaction")); [|discriminate].
+    unfold Model.processEthSendTransaction.
+    destruct (rq_params rq) as [|p0 ps]; simpl.
+    { intros H _. injection H as <-. unfold o_resp; simpl; eauto. }
+    destruct (decode_transaction parse_int p0) as [tx|e|].
+    2:{ intros H _. injection H as <-. unfold o_resp; simpl; eauto. }
+    2:{ discriminate. }
+    destruct (tx_from tx) as [f|].
+    2:{ intros H _. injection H as <-. unfold o_resp; simpl; eauto. }
+    destruct (tx_nonce tx); [discriminate|].
+    destruct (dec_address f) as [a|e|]; simpl; [discriminate| |discriminate].
+    intros H _. injection H as <-. unfold o_resp; simpl; eauto.
+  Qed.
+
+  Theorem never_null_concrete :
+    (* a body the lexer rejects *)
+    (forall body order, lex body = None -> rpcHandler body order = Ok replyRPCParseError) /\
+    (* a tree that is neither a request nor a non-empty batch of requests *)
+    (forall body order t e, lex body = Some t -> decode_request t = Err e ->
+        (decode_batch t = Ok [] \/ exists e', decode_batch t = Err e') ->
+        rpcHandler body order = Ok replyRPCParseError) /\
+    (* a single request that cannot be processed *)
+    (forall body order t rq, (b2n (sniffFirstByte body) =? 91)%N = false ->
+        lex body = Some t -> decode_request t = Ok rq -> must_fail_c (Some rq) = true ->
+        exists status tree traces, rpcHandler body order = Ok (status, tree, traces) /\ error_reply_tree tree) /\
+    (* a batch: one slot per member, and the slot of a member that cannot be processed holds an error object *)
+    (forall body order t members, (b2n (sniffFirstByte body) =? 91)%N = true ->
+        lex body = Some t -> decode_batch t = Ok members -> members <> [] ->
+        Permutation order (seq 0 (length members)) ->
+        exists status slots traces, rpcHandler body order = Ok (status, JArr slots, traces) /\
+          length slots = length members /\
+          forall i m, nth_error members i = Some m -> must_fail_c m = true ->
+                      exists s, nth_error slots i = Some s /\ error_reply_tree s).
+  Proof.
+    split; [|split; [|split]].
+    - intros body order Hl. unfold Model.rpcHandler, Model.handleRPCBatch. rewrite Hl.
+      destruct (_ =? _)%N; reflexivity.
+    - intros body order t e Hl Hr Hb. unfold Model.rpcHandler, Model.handleRPCBatch. rewrite Hl, Hr.
+      destruct (_ =? _)%N; [|reflexivity].
+      destruct Hb as [-> | [e' ->]]; reflexivity.
+    - intros body order t rq Hs Hl Hd Hm. unfold Model.rpcHandler. rewrite Hs, Hl, Hd.
+      destruct (processRPC_ok (Some rq)) as [o Eo]. rewrite Eo.
+      destruct (processRPC_must_fail_c _ _ Eo Hm) as [id [code Er]].
+      destruct o as [[resp err] fr]. unfold o_resp in Er. simpl in Er. subst resp. simpl.
+      eexists _, _, _. split; [reflexivity|]. unfold error_reply_tree; eauto.
+    - intros body order t members Hs Hl Hd Hne P. unfold Model.rpcHandler. rewrite Hs.
+      destruct (run_members_ok members) as [outs [Er Lo]].
+      destruct (batch_alignment parse_int lex accounts sign_with backend chain body t members outs order Hl Hd Hne Er P) as [E F].
+      rewrite E. eexists _, _, _. split; [reflexivity|]. split; [rewrite map_length; exact Lo|].
+      intros i m Hi Hm.
+      assert (Ho : exists o, nth_error outs i = Some o /\ processRPC m = Ok o).
+      { clear -F Hi. revert i Hi. induction F as [|m0 o0 ms os H0 _ IH]; intros [|i] Hi; simpl in Hi; try discriminate.
+        - injection Hi as Hi. subst. exists o0. split; [reflexivity|assumption].
+        - apply IH. exact Hi. }
+      destruct Ho as [o [Hoi Ep]].
+      destruct (processRPC_must_fail_c _ _ Ep Hm) as [id [code Er']].
+      exists (response_opt_tree (o_resp o)). split.
+      + rewrite nth_error_map, Hoi. reflexivity.
+      + rewrite Er'. unfold error_reply_tree; simpl; eauto.
+  Qed.
 End Concrete.
